@@ -21,7 +21,8 @@ from bounded import common  # noqa: E402
 SPECIAL = ["nan", "NaN", "NAN", "inf", "-inf", "+inf", "Inf", "INF", "infinity", "-Infinity", "1e400", "-1e999", "nan ", " inf"]
 TEXTS = ["", "a", "hello world", "with,comma", 'with "quotes"', "line1\nline2", "cr\rlf", "crlf\r\nend", "tab\there", " leading", "trailing ", "  two  spaces  ",
          "é ü ñ", "日本語", "\U0001F600", "'apostrophe", "=A1+B1", "TRUE", "false", "None", "0x10", "1,2,3,x", "12abc", "1 2", "--5", "1e", "e5", ".", "-", "+", ",",
-         "$5", "5%", "1/2", "2020-01-01", "12:30", "\"", "\"\"", "a\"b", ",", ",,", "a,", "\n", "x\n", "null\x00byte"[:4]]
+         "$5", "5%", "1/2", "2020-01-01", "12:30", "\"", "\"\"", "a\"b", ",", ",,", "a,", "\n", "x\n", "null\x00byte"[:4],
+         "\ufeffid", "\ufeff12", "mid\ufeffdle", "\u200bzero width", "\xa0nbsp\xa0"]
 NUMBERS = ["0", "1", "-1", "+1", "42", "007", "3.14", "-0.5", ".5", "5.", "1,000", "1,234,567.89", "-1,000", "1e3", "1E3", "1.5e-7", "-2.5E+10", "1_000", "1_0.5",
            " 12 ", "12 ", "\t7", "١٢٣", "１２３", "999999999999999", "0.000001", "123456.789", "1e15", "-0", "0.0", "1e-300", "1e300",
            # long digit strings: still numbers (compared as doubles), never a crash
@@ -109,6 +110,9 @@ def run_case(case):
                     r[-1] = ""
             if which in (1, 2) and rows >= 2:
                 grid[-1] = [""] * cols
+        if case.get("first_cell"):
+            # characters a decoder may treat specially at the very start of the file
+            grid[0][0] = case["first_cell"] + grid[0][0].lstrip("\ufeff")
         if case.get("force_dup") and not no_header and cols >= 2 and rows >= 2:
             grid[0][-1] = grid[0][0]
             grid[1][0], grid[1][-1] = "left", "right"
@@ -205,6 +209,8 @@ def main():
         cases.append({"kind": "grid", "seed": a.seed * 1000 + 500 + s, "n": 12, "max_rows": 6, "max_cols": 5, "hostile": False, "distinct_header": "names",
                       "blank_edges": True})
     cases.append({"kind": "grid", "seed": a.seed * 1000 + 999, "n": 10, "max_rows": 4, "max_cols": 6, "hostile": False, "distinct_header": None, "force_dup": True})
+    for i, fc in enumerate(("\ufeff", "\ufeff\ufeff", "\ufffe", "\u200b")):
+        cases.append({"kind": "grid", "seed": a.seed * 1000 + 700 + i, "n": 8, "max_rows": 4, "max_cols": 4, "hostile": False, "distinct_header": "names", "first_cell": fc})
     for content in ("", "\n", "a,b\n", "a\n", '"unterminated\n', 'a,"b"x\n', "﻿a,b\n1,2\n", "a,b\n1\n", "a,b\n1,2,3\n"):
         for opts in ([], ["--no-header"]):
             cases.append({"kind": "edge", "content": content, "opts": opts})
